@@ -170,7 +170,7 @@ func TestC15(t *testing.T) {
 	}
 
 	// (b) + (c) sampled
-	rapid.Check(t, func(rt *rapid.T) {
+	checkRapid(t, c, func(rt *rapid.T) {
 		c.Eval()
 		if gen.Pick(rt, "mode", 3) == 0 {
 			w := rapid.OneOf(rapid.Uint32(), rapid.SampledFrom([]uint32{0, 0xffffffff, 0xffff0002, 0xffff00ff, 0x80000000, 0x0001ff00, 0x00010204, 0xffff5402})).Draw(rt, "word")
